@@ -311,6 +311,84 @@ fn c23_cancel_fragment_sidecar_ingredient() {
     println!("VERIF-B unit=reader test=c23_cancel_fragment_sidecar_ingredient evaluations={evals} nontrivial={nontrivial} exhaustive=true domain=every callback index k of {{fragmented read dashinit.mp4+dash1.m4s; sidecar sign and read of IMG_0003.jpg; ingredient import (and import+sign) of C.jpg, CA.jpg, video1.mp4, IMG_0003.jpg; ingredient import of ocsp.jpg with OCSP fetching through a refusing resolver}}");
 }
 
+// ---------------------------------------------------------------- C04 (Engine B): the legacy status-list fallback of Reader::validation_state
+// A Reader without a results object (restored from older JSON) decides from the flat list of validation errors.  For
+// every list of up to 3 entries over 6 codes (the tolerated one, hard failures, an unknown code), with the entries
+// built as failures or as they come out of serde (kind is not serialized), and verify_trust on / off:
+//   Trusted only if the list holds no failure at all; Valid only if every code is a tolerated credential code;
+//   adding a non-tolerated failure never gives Valid or Trusted.
+#[test]
+fn c04_legacy_status_list_fallback() {
+    use crate::validation_status as vs;
+    let codes = [vs::SIGNING_CREDENTIAL_UNTRUSTED, vs::ASSERTION_DATAHASH_MISMATCH, vs::CLAIM_SIGNATURE_MISMATCH, vs::SIGNING_CREDENTIAL_REVOKED, vs::ASSERTION_HASHEDURI_MISMATCH, "org.example.unknown"];
+    let tolerated = |c: &str| c == vs::SIGNING_CREDENTIAL_UNTRUSTED || c.starts_with("cawg.");
+    let mut lists: Vec<Vec<usize>> = vec![vec![]];
+    for a in 0..codes.len() {
+        lists.push(vec![a]);
+        for b in 0..codes.len() {
+            lists.push(vec![a, b]);
+            for c in 0..codes.len() {
+                lists.push(vec![a, b, c]);
+            }
+        }
+    }
+    let mut evals = 0usize;
+    let mut nontrivial = 0usize;
+    let mut counts: std::collections::BTreeMap<String, usize> = std::collections::BTreeMap::new();
+    let mut bad = |k: &str, input: String, counts: &mut std::collections::BTreeMap<String, usize>| {
+        let c = counts.entry(k.to_string()).or_insert(0);
+        *c += 1;
+        if *c <= 3 {
+            println!("VERIF-B-VIOLATION key={k} input={input}");
+        }
+    };
+    for verify_trust in [true, false] {
+        for deserialized in [false, true] {
+            for list in &lists {
+                let mut ctx = Context::new();
+                ctx.settings_mut().verify.verify_trust = verify_trust;
+                let statuses: Vec<ValidationStatus> = list
+                    .iter()
+                    .map(|i| {
+                        if deserialized {
+                            serde_json::from_value(serde_json::json!({"code": codes[*i]})).unwrap_or_else(|_| ValidationStatus::new_failure(codes[*i]))
+                        } else {
+                            ValidationStatus::new_failure(codes[*i])
+                        }
+                    })
+                    .collect();
+                let mut r = Reader::from_context(ctx);
+                r.validation_results = None;
+                r.validation_status = if list.is_empty() && deserialized { None } else { Some(statuses) };
+                let state = r.validation_state();
+                evals += 1;
+                if !list.is_empty() {
+                    nontrivial += 1;
+                }
+                let desc = || format!("validation_status={:?} (entries {}) verify_trust={verify_trust} -> {state:?}", list.iter().map(|i| codes[*i]).collect::<Vec<_>>(), if deserialized { "as deserialized" } else { "built as failures" });
+                let any_hard = list.iter().any(|i| !tolerated(codes[*i]));
+                match state {
+                    ValidationState::Trusted => {
+                        if !list.is_empty() {
+                            bad(if any_hard { "legacy_state.hard_failure_reported_trusted" } else { "legacy_state.tolerated_failure_reported_trusted" }, desc(), &mut counts);
+                        } else if !verify_trust {
+                            bad("legacy_state.trusted_without_trust_check", desc(), &mut counts);
+                        }
+                    }
+                    ValidationState::Valid => {
+                        if any_hard {
+                            bad("legacy_state.hard_failure_reported_valid", desc(), &mut counts);
+                        }
+                    }
+                    ValidationState::Invalid => {}
+                }
+            }
+        }
+    }
+    println!("VERIF-B-SAMPLE violation classes this run: {:?}", counts);
+    println!("VERIF-B unit=reader test=c04_legacy_status_list_fallback evaluations={evals} nontrivial={nontrivial} exhaustive=true domain=every list of <= 3 entries over 6 codes (tolerated, 4 hard failures, unknown) x entries built as failures / as deserialized x verify_trust on / off, through Reader::validation_state without a results object");
+}
+
 // ---------------------------------------------------------------- C35 (Engine B): short reads and injected I/O faults at the public API
 // (a) a stream that returns data in small pieces gives the same result as the plain stream;
 // (b) a stream that breaks at its k-th operation (that read / seek and all later ones fail), for EVERY k of a full
@@ -321,13 +399,14 @@ struct Wrapped {
     inner: std::io::Cursor<Vec<u8>>,
     piece: usize,                    // 0 = unlimited
     fail_at: Option<usize>,          // from this operation index on every operation fails (the stream is broken)
+    once: bool,                      // only the operation with index fail_at fails (a transient fault)
     ops: std::sync::Arc<std::sync::atomic::AtomicUsize>,
 }
 #[cfg(test)]
 impl Wrapped {
     fn tick(&self) -> std::io::Result<()> {
         let k = self.ops.fetch_add(1, std::sync::atomic::Ordering::SeqCst);
-        if self.fail_at.is_some_and(|f| k >= f) {
+        if self.fail_at.is_some_and(|f| if self.once { k == f } else { k >= f }) {
             return Err(std::io::Error::other("injected fault"));
         }
         Ok(())
@@ -373,7 +452,7 @@ fn c35_short_reads_and_injected_faults() {
         let Ok(bytes) = std::fs::read(crate::utils::test::fixture_path(file)) else { continue };
         let read_with = |piece: usize, fail_at: Option<usize>| -> (Result<Reader>, usize, bool) {
             let ops = Arc::new(AtomicUsize::new(0));
-            let w = Wrapped { inner: std::io::Cursor::new(bytes.clone()), piece, fail_at, ops: Arc::clone(&ops) };
+            let w = Wrapped { inner: std::io::Cursor::new(bytes.clone()), piece, fail_at, once: false, ops: Arc::clone(&ops) };
             let r = std::panic::catch_unwind(std::panic::AssertUnwindSafe(|| Reader::from_context(crate::utils::test::test_context()).with_stream(mime, w)));
             match r {
                 Ok(r) => (r, ops.load(Ordering::SeqCst), false),
@@ -459,7 +538,7 @@ fn c35_short_reads_signed_assets_all_formats() {
         let Ok(asset) = signed else { continue };
         let read_with = |piece: usize, fail_at: Option<usize>| -> (Result<Reader>, usize, bool) {
             let ops = Arc::new(AtomicUsize::new(0));
-            let w = Wrapped { inner: std::io::Cursor::new(asset.clone()), piece, fail_at, ops: Arc::clone(&ops) };
+            let w = Wrapped { inner: std::io::Cursor::new(asset.clone()), piece, fail_at, once: false, ops: Arc::clone(&ops) };
             let r = std::panic::catch_unwind(std::panic::AssertUnwindSafe(|| Reader::from_context(crate::utils::test::test_context()).with_stream(mime, w)));
             match r {
                 Ok(r) => (r, ops.load(Ordering::SeqCst), false),
@@ -502,4 +581,109 @@ fn c35_short_reads_signed_assets_all_formats() {
     }
     println!("VERIF-B-SAMPLE violation classes this run: {:?}", counts);
     println!("VERIF-B unit=reader test=c35_short_reads_signed_assets_all_formats evaluations={evals} nontrivial={nontrivial} exhaustive=false domain=assets of 12 formats signed by the SDK, read back with piece sizes {{1 (small assets),7,100,4096}} and with the stream breaking at 40 evenly spaced operation indices");
+}
+
+// (c) signing from a source stream that fails ONCE, at its k-th operation: the sign call returns an error, or - when the
+//     failing operation was a probe whose result the SDK does not need - an asset with exactly the layout of the fault-free
+//     run (same manifest-store position and length, every other byte identical; BMFF: same total length) that validates the same way.  A hidden
+//     fault with an equivalent result is its own class; a hidden fault with a DIFFERENT result is the alarm.
+#[test]
+fn c35_sign_with_transient_source_faults() {
+    use std::sync::{atomic::{AtomicUsize, Ordering}, Arc};
+    let thorough = std::env::var("VERIF_B_TIER").map(|t| t == "thorough").unwrap_or(false);
+    let max_points = if thorough { 600 } else { 160 };
+    let mut evals = 0usize;
+    let mut nontrivial = 0usize;
+    let mut counts: std::collections::BTreeMap<String, usize> = std::collections::BTreeMap::new();
+    let mut bad = |k: String, input: String, counts: &mut std::collections::BTreeMap<String, usize>| {
+        let c = counts.entry(k.clone()).or_insert(0);
+        *c += 1;
+        if *c <= 3 {
+            println!("VERIF-B-VIOLATION key={k} input={input}");
+        }
+    };
+    // layout of a signed asset: (manifest store positions, all other bytes, validation state)
+    let layout = |mime: &str, asset: &[u8]| -> (Vec<(usize, usize)>, Vec<u8>, String) {
+        let mut cai: Vec<(usize, usize)> = crate::jumbf_io::object_locations_from_stream(mime, &mut std::io::Cursor::new(asset.to_vec()))
+            .map(|v| v.iter().filter(|p| p.htype == crate::asset_io::HashBlockObjectType::Cai).map(|p| (p.offset, p.length)).collect())
+            .unwrap_or_default();
+        cai.sort();
+        let mut rest = Vec::with_capacity(asset.len());
+        let mut pos = 0usize;
+        for (o, l) in &cai {
+            if *o >= pos && *o <= asset.len() {
+                rest.extend_from_slice(&asset[pos..*o]);
+                pos = (*o + *l).min(asset.len());
+            }
+        }
+        rest.extend_from_slice(&asset[pos.min(asset.len())..]);
+        if cai.is_empty() {
+            // the handler reports no manifest-store position (BMFF): the store bytes differ from run to run (fresh
+            // identifiers), so only the total length and the verdict can be compared
+            rest = format!("{} bytes", asset.len()).into_bytes();
+        }
+        let state = match Reader::from_context(crate::utils::test::test_context()).with_stream(mime, std::io::Cursor::new(asset.to_vec())) {
+            Ok(r) => format!("{:?}", r.validation_state()),
+            Err(e) => format!("Err({})", e.to_string().chars().take(40).collect::<String>()),
+        };
+        (cai, rest, state)
+    };
+    for (file, mime) in [
+        ("IMG_0003.jpg", "image/jpeg"), ("libpng-test.png", "image/png"), ("sample1.gif", "image/gif"), ("test.tiff", "image/tiff"), ("sample1.wav", "audio/wav"),
+        ("test.webp", "image/webp"), ("sample1.mp3", "audio/mpeg"), ("sample1.svg", "image/svg+xml"), ("sample1.jxl", "image/jxl"), ("sample1.flac", "audio/flac"),
+        ("video1_no_manifest.mp4", "video/mp4"), ("test.avi", "video/avi"),
+    ] {
+        let Ok(bytes) = std::fs::read(crate::utils::test::fixture_path(file)) else { continue };
+        if bytes.is_empty() {
+            continue;
+        }
+        let sign_with = |fail_at: Option<usize>| -> (std::result::Result<Vec<u8>, Error>, usize, bool) {
+            let ops = Arc::new(AtomicUsize::new(0));
+            let mut src = Wrapped { inner: std::io::Cursor::new(bytes.clone()), piece: 0, fail_at, once: true, ops: Arc::clone(&ops) };
+            let r = std::panic::catch_unwind(std::panic::AssertUnwindSafe(|| -> std::result::Result<Vec<u8>, Error> {
+                let shared = crate::utils::test::test_context().into_shared();
+                let mut b = crate::Builder::from_shared_context(&shared).with_definition(r#"{"title":"t","assertions":[]}"#)?;
+                b.set_intent(crate::BuilderIntent::Create(crate::DigitalSourceType::Empty));
+                let mut dst = std::io::Cursor::new(Vec::new());
+                b.save_to_stream(mime, &mut src, &mut dst)?;
+                Ok(dst.into_inner())
+            }));
+            match r {
+                Ok(r) => (r, ops.load(Ordering::SeqCst), false),
+                Err(_) => (Err(Error::OtherError("panic".into())), ops.load(Ordering::SeqCst), true),
+            }
+        };
+        let (plain, total_ops, _) = sign_with(None);
+        let Ok(reference) = plain else {
+            println!("VERIF-B-SAMPLE {file}: fault-free signing failed, skipped");
+            continue;
+        };
+        let want = layout(mime, &reference);
+        let step = (total_ops / max_points).max(1);
+        let mut hidden_same = 0usize;
+        let mut k = 0usize;
+        while k < total_ops {
+            evals += 1;
+            nontrivial += 1;
+            let (r, _, panicked) = sign_with(Some(k));
+            if panicked {
+                bad(format!("io.sign_fault_panic.{}", file.rsplit('.').next().unwrap_or("")), format!("{file}: source operation {k} of {total_ops} fails once -> panic"), &mut counts);
+            } else if let Ok(out) = r {
+                let got = layout(mime, &out);
+                if got == want {
+                    hidden_same += 1;
+                } else {
+                    let what = if got.0 != want.0 { format!("manifest store at {:?} instead of {:?}", got.0, want.0) } else if got.2 != want.2 { format!("reads back {} instead of {}", got.2, want.2) } else { "asset bytes outside the manifest store differ".to_string() };
+                    bad(format!("io.sign_fault_hidden_result_differs.{}", file.rsplit('.').next().unwrap_or("")), format!("{file}: source operation {k} of {total_ops} fails once -> Ok, {what}"), &mut counts);
+                }
+            }
+            k += step;
+        }
+        if hidden_same > 0 {
+            bad(format!("io.sign_fault_hidden_result_equivalent.{}", file.rsplit('.').next().unwrap_or("")), format!("{file}: {hidden_same} of the injected one-shot source faults ({total_ops} operations, every {step}th tried) are not reported; the signed asset has the fault-free layout and validates as {}", want.2), &mut counts);
+        }
+        println!("VERIF-B-SAMPLE sign {file}: {total_ops} source operations, fault-free result {} with the manifest store at {:?}", want.2, want.0);
+    }
+    println!("VERIF-B-SAMPLE violation classes this run: {:?}", counts);
+    println!("VERIF-B unit=reader test=c35_sign_with_transient_source_faults evaluations={evals} nontrivial={nontrivial} exhaustive=false domain=signing fixtures of 12 formats from a source stream whose k-th read / seek fails once, k over up to {max_points} evenly spaced operation indices of the fault-free run");
 }
